@@ -92,10 +92,20 @@ func (p *panicInfo) site() string {
 	// whatever it calls with the half-decoded type (CompareTypes,
 	// appendTypeValue, makeslice, ...): name the decoder and the kind of
 	// runtime error instead of the accidental innermost frame.
+	unmarshal, readMeta := false, false
 	for _, f := range p.frames {
 		if f == ".(*Context).DecodeTypeValue" {
 			return f + ":" + p.kind()
 		}
+		unmarshal = unmarshal || strings.HasPrefix(f, "/zson.(*UnmarshalZNGContext).")
+		readMeta = readMeta || f == "/vng.readMetadata"
+	}
+	if unmarshal && readMeta {
+		// vng.readMetadata reads the metadata value with a non-validating
+		// zngio reader and hands it to the ZNG unmarshaler, which walks it with
+		// zcode.Iter (and formats it for error messages): one root cause,
+		// many innermost frames.
+		return "/vng.readMetadata[unmarshal-of-unvalidated-value]"
 	}
 	s := p.frames[0]
 	if helper(s) {
